@@ -10,6 +10,7 @@ R4  update_system_force subtracts the previously applied ABF force exactly when 
 R6  the gradient grid and the count grid it normalises by have one shape (shared with C15-R8)
 R7  the bin of a value is found by rounding down (shared with C15-R9)
 R8  what a bias takes off the one-step-late total force is the force it sent
+R9  a bin index that lags one step behind starts out invalid
 """
 from . import expr as X
 from . import cond as C
@@ -242,7 +243,70 @@ def r8(F, rep, rid="C04-R8"):
         raise AnalysisBroken("%s: only %d subtraction(s) of a bias's own force from total_force() found (ABF and the TI estimator expected)" % (rid, n))
 
 
+def r9_lag(F, rep, rid="C04-R9"):
+    rep.rule(rid, "a bin that lags one step behind starts out invalid: where a bias accumulates into the bin stored in a member "
+                  "index vector that its update function has not (unconditionally) assigned before the accumulation -- the bin "
+                  "of the previous step, for one-step-late total forces -- every `assign(n, v)` that initialises that member "
+                  "gives it a negative value, so that index_ok() rejects it until a previous step exists (a bias created in "
+                  "the middle of a run otherwise credits its first force to bin 0); the sibling estimators agree on this")
+    from .rules_c10 import member_root
+    n = 0
+    for f in sorted(F.funcs.values(), key=lambda g: g.q):
+        if "/src/" not in f.file or f.body is None or not f.cls or "colvarbias" not in f.cls or not f.cfg.ok:
+            continue
+        lag = {}
+        for c in X.calls(f):
+            if c["k"] != "CXXMemberCallExpr" or X.callee_name(c) not in ("acc_force", "acc_value") or not X.call_args(c):
+                continue
+            a = X.strip(X.call_args(c)[0])
+            if a["k"] != "MemberExpr" or a.get("dk") != "Field" or X.strip(X.kids(a)[0])["k"] != "CXXThisExpr":
+                continue
+            if "vector<int" not in f.typestr(a.get("t")):
+                continue
+            q = a["q"]
+            ws = [w for w, t in lvalue_writes(f) if member_root(t) is not None and member_root(t)["q"] == q]
+            def fills_before(w):
+                # an unconditional element-wise fill in a loop that is itself executed before the accumulation
+                loop = None
+                for an in f.ancestors(w):
+                    if an["k"] in ("IfStmt", "ConditionalOperator", "SwitchStmt"):
+                        return False
+                    if an["k"] == "ForStmt":
+                        loop = an
+                        break
+                if loop is None:
+                    return False
+                head = loop["c"][1] if len(loop.get("c", [])) > 1 and loop["c"][1] is not None else None
+                return head is not None and f.cfg.dominates(head, c)
+            if any(f.cfg.dominates(w, c) or fills_before(w) for w in ws):
+                continue
+            lag.setdefault(q, c)
+        for q, c in sorted(lag.items()):
+            inits = []
+            for g in F.funcs.values():
+                if g.body is None or g.cls is None or g.cls not in F.bases(f.cls) and g.cls != f.cls:
+                    continue
+                for c2 in X.calls(g):
+                    if c2["k"] == "CXXMemberCallExpr" and X.callee_name(c2) == "assign" and len(X.call_args(c2)) == 2:
+                        r = X.receiver(c2)
+                        rs = X.strip(r) if r is not None else None
+                        if rs is not None and rs["k"] == "MemberExpr" and rs.get("q") == q and g.m != f.m:
+                            inits.append((g, c2, X.re_strip(X.key(X.call_args(c2)[1], g)).strip("()")))
+            if not inits:
+                continue
+            n += 1
+            bad = [(g, c2, v) for g, c2, v in inits if not v.startswith("-")]
+            name = q.split("::")[-1]
+            rep.add(rid, "%s|%s" % (f.q, name), (bad[0][0].loc(bad[0][1]) if bad else inits[0][0].loc(inits[0][1])),
+                    "%s accumulates into the bin `%s` of an earlier step; it is initialised with %s" % (f.q, name, sorted({v for g, c2, v in inits})), not bad,
+                    detail="0 is a valid bin: a bias defined after the first step of a run, with one-step-late total forces, adds its first "
+                           "sample to bin 0 whatever the variable's value was", func=f.q)
+    if n < 2:
+        raise AnalysisBroken("%s: only %d lagging bin members found (ABF force_bin and the TI estimator's ti_bin expected)" % (rid, n))
+
+
 def run(F, rep, tier):
+    r9_lag(F, rep)
     r8(F, rep)
     r6(F, rep)
     r7(F, rep)
